@@ -757,6 +757,14 @@ func (i *InvoiceRegistry) cancelSingleHtlc(invoiceRef InvoiceRef,
 	return nil
 }
 
+// invoiceExists returns true if the invoice the htlc is targeting can already
+// be found in the database.
+func (i *InvoiceRegistry) invoiceExists(ctx invoiceUpdateCtx) bool {
+	_, err := i.idb.LookupInvoice(context.Background(), ctx.invoiceRef())
+
+	return err == nil
+}
+
 // processKeySend just-in-time inserts an invoice if this htlc is a keysend
 // htlc.
 func (i *InvoiceRegistry) processKeySend(ctx invoiceUpdateCtx) error {
@@ -795,8 +803,14 @@ func (i *InvoiceRegistry) processKeySend(ctx invoiceUpdateCtx) error {
 	finalCltvDelta := i.cfg.FinalCltvRejectDelta
 
 	// Pre-check expiry here to prevent inserting an invoice that will not
-	// be settled.
-	if ctx.expiry < uint32(ctx.currentHeight+finalCltvDelta) {
+	// be settled. If the invoice already exists there is nothing to insert
+	// and this may be a replay of an htlc the invoice already records, which
+	// must get the verdict recorded for it: leave the decision to the update
+	// logic, which resolves replays first and rejects a new htlc that
+	// expires too soon.
+	if ctx.expiry < uint32(ctx.currentHeight+finalCltvDelta) &&
+		!i.invoiceExists(ctx) {
+
 		return errors.New("final expiry too soon")
 	}
 
@@ -862,8 +876,14 @@ func (i *InvoiceRegistry) processAMP(ctx invoiceUpdateCtx) error {
 	finalCltvDelta := i.cfg.FinalCltvRejectDelta
 
 	// Pre-check expiry here to prevent inserting an invoice that will not
-	// be settled.
-	if ctx.expiry < uint32(ctx.currentHeight+finalCltvDelta) {
+	// be settled. If the invoice already exists there is nothing to insert
+	// and this may be a replay of an htlc the invoice already records, which
+	// must get the verdict recorded for it: leave the decision to the update
+	// logic, which resolves replays first and rejects a new htlc that
+	// expires too soon.
+	if ctx.expiry < uint32(ctx.currentHeight+finalCltvDelta) &&
+		!i.invoiceExists(ctx) {
+
 		return errors.New("final expiry too soon")
 	}
 
